@@ -1,10 +1,25 @@
 (* C19 -- PeriodicDiskRevolve really is periodic, with a period independent of n
    Property theorems only: each proof is one application of a lemma proved in Proofs/, followed by Print Assumptions. *)
 From Coq Require Import ZArith List Bool.
-From CS Require PeriodProofs PeriodShape.
+From CS Require PeriodProofs PeriodShape SeqGenSpec.
 From CS Require Import Actions NAdvance Multistage Exec Sched RunFacts Projections BasicInv MultistageRun AllocTotal TLBridge MixBridge.
 Import ListNotations.
 Open Scope Z_scope.
+
+(* THE SEQUENCE GENERATORS ARE THE SOURCE: SeqGenSpec.revolve_shape / disk_revolve_shape / periodic_shape are the Gallina functions harness/translate.py (SeqTr) renders from revolve(), disk_revolve() and periodic_disk_revolve() of hrevolve_sequences/ -- every sequence.insert(operation(..)) appends one operation, insert_sequence(f(..).shift(k)) a recursively built list, the loops become for_down / while_, reads of the tables tget / lget with IndexError; Gen/SeqGen.v re-translates the current source on every run and proves the result equal to these terms by conversion.  They are proved equal, for all arguments, to the extracted RevSeq.revolve / RevSeq.disk_revolve / the body of RevSeq.periodic_top, on which every theorem about the Revolve family is stated; this is the top-level call of the constructor (RevConv.sequence) read on the translated source.  Not translated: the tables (get_opt_0_table, get_opt_inf_table), mxrr_close_formula and the Sequence / Operation classes of basic_functions.py (their flattening, shift and remove_useless_wm are Ops.v) *)
+Module M_C19_periodic_sequence_is_source.
+Import SeqGenSpec.
+Theorem C19_periodic_sequence_is_source :
+  forall l cm rd wd uf ub : Z,
+         0 <= l ->
+         RevSeq.periodic_top l cm rd wd uf ub =
+         (let mx := RevSeq.mxrr cm uf rd wd in
+          Actions.bind (RevSeq.get_opt_0_table (Z.max mx mx + 1) cm uf ub)
+            (fun t : list (list Z) =>
+             Actions.bind (periodic_shape t uf mx l cm) (fun o : list Ops.op => Actions.Ok (o, mx)))).
+Proof. exact (@SeqGenSpec.periodic_top_is_source). Qed.
+Print Assumptions C19_periodic_sequence_is_source.
+End M_C19_periodic_sequence_is_source.
 
 (* the whole operation sequence, every l = max_n - 1 >= 0 and cm >= 1: sweep ++ revolve(last segment) ++ (Read_disk + revolve(one period)) per disk checkpoint, last first; k disk checkpoints, written exactly while more than mx steps remain; the pieces come from the memory-only generator `revolve` on the opt_0 table (the generator of class Revolve: C07) and contain no disk operation; hence disk writes only in the sweep at 0, mx, ..., (k-1) mx, none afterwards, and each disk checkpoint is read exactly once *)
 Module M_C19_periodic_shape.
